@@ -381,6 +381,35 @@ def st_spec(draw):
     return spec
 
 
+@st.composite
+def st_spec_many_designs(draw):
+    """PaVeBa / Auer / NaiveElimination with 9..24 designs, most of them clearly dominated, so that after a few
+    eliminations the active set holds few, large, sparse indices (a Python set of such ints does not iterate in
+    sorted order - the pairing of queried designs with returned observations is then order-sensitive)."""
+    from vverif.harness import data as hdata
+
+    algo = draw(st.sampled_from(["PaVeBa", "PaVeBa", "Auer", "NaiveElimination"]))
+    K = draw(st.integers(9, 24))
+    m = 2
+    eps = 0.3
+    tops = draw(st.lists(st.integers(0, K - 1), min_size=2, max_size=4, unique=True))
+    Y = []
+    for i in range(K):
+        if i in tops:
+            Y.append([draw(st.floats(-0.3, 0.3)), draw(st.floats(-0.3, 0.3))])
+        else:
+            g = draw(st.floats(1.0, 30.0))
+            Y.append([-g + draw(st.floats(-0.2, 0.2)), -g + draw(st.floats(-0.2, 0.2))])
+    spec = {"algo": algo, "cone": {"kind": "comp", "m": m}, "eps": eps, "delta": 0.1, "noise_var": draw(st.sampled_from([0.01, 0.05])),
+            "contraction": draw(st.sampled_from([2, 8])), "X": hdata.grid_inputs(K, 2).tolist(), "Y": Y, "seed": draw(st.integers(0, 2**31 - 1)),
+            "source": "real"}
+    if algo == "Auer":
+        spec["empirical"] = draw(st.booleans())
+    if algo == "NaiveElimination":
+        spec["L"] = 3
+    return spec
+
+
 def _ad():
     from vverif.props.C06 import st_spec_ad
 
@@ -392,5 +421,7 @@ COMPONENTS = [
     Component("decoupled_optimiser_tables", check_decoupled_optimiser, strategy=st_dec_opt, quick=2000, thorough=60000, fuzz_runs=1500,
               rule="m = 2..3 objectives x 1..6 rows, optional costs, q = 1..rows*m+2, saved evaluation index None or int"),
     Component("run_evaluations", check_run, strategy=st_spec, quick=220, thorough=8000, rule="every evaluation of runs of the eight dataset algorithms (<= 40 steps), batch 1..K+3"),
+    Component("run_evaluations_many_designs", check_run, strategy=st_spec_many_designs, quick=48, thorough=1500,
+              rule="PaVeBa / Auer / NaiveElimination with 9..24 designs, mostly dominated: active sets with large sparse indices"),
     Component("run_evaluations_vogp_ad", check_run, strategy=_ad, quick=16, thorough=400, rule="VOGP_AD: the evaluated or refined node is the max-diagonal active node"),
 ]
